@@ -286,6 +286,12 @@ func runHist(ctx context.Context, h thist) *tout {
 			out.relogged = true
 		}
 	}
+	observeSn(ctx, e, dir, out)
+	return out
+}
+
+// observeSn asks this process's L2 cache, the folder and a cold process about the store `sn` (and dumps the catalogue).
+func observeSn(ctx context.Context, e *txk.Env, dir string, out *tout) {
 	// observation: this process's L2 cache, the folder, a cold process
 	var si sop.StoreInfo
 	if found, err := e.L2.GetStruct(ctx, fmt.Sprintf("%s:%s", dir, "sn"), &si); found && err == nil {
@@ -363,7 +369,6 @@ func runHist(ctx context.Context, h thist) *tout {
 		bs = strings.Join(body, " ")
 	}
 	out.dump = fmt.Sprintf("%s | folders=[%s] list=[%s]", bs, strings.Join(folders, ","), strings.Join(ln, ","))
-	return out
 }
 
 // emitHist replays the history on the model Sop.StoreRepoCommit (ops derived from what T1's backend-call trace shows:
